@@ -4,11 +4,35 @@ use mp4::verif_hooks::*;
 use mp4::*;
 use std::io::Cursor;
 
-#[kani::proof]
-#[kani::unwind(5)]
-fn q_h05dec__esds() {
-    crate::c05_decode_ref!(EsdsBox, any_esds(), ref_esds, 47);
+/// esds decode from reference bytes, concrete AudioSpecificConfig per harness (see any_esds_asc).
+macro_rules! esds_dec {
+    ($name:ident, $p:expr, $f:expr, $c:expr) => {
+        #[kani::proof]
+        #[kani::unwind(6)]
+        fn $name() {
+            crate::c05_decode_ref!(EsdsBox, any_esds_asc($p, $f, $c), ref_esds, 47);
+        }
+    };
 }
+esds_dec!(q_h05dec__esds_lc_48000_stereo, 2, 3, 2);
+esds_dec!(q_h05dec__esds_lc_16000_mono, 2, 8, 1);
+esds_dec!(q_h05dec__esds_sbr_7350_51, 5, 12, 6);
+esds_dec!(q_h05dec__esds_main_96000_71, 1, 0, 7);
+esds_dec!(t_h05dec__esds_ps_11025_stereo, 29, 10, 2);
+esds_dec!(t_h05dec__esds_ltp_8000_three, 4, 11, 3);
+esds_dec!(t_h05dec__esds_lc_44100_four, 2, 4, 4);
+esds_dec!(t_h05dec__esds_lc_12000_five, 2, 9, 5);
+esds_dec!(t_h05dec__esds_ssr_22050_mono, 3, 7, 1);
+
+/// mp4a with that esds inside, decoded from reference bytes
+#[kani::proof]
+#[kani::unwind(6)]
+fn q_h05dec__mp4a_esds_lc_16000_mono() {
+    let mut v = any_mp4a(false);
+    v.esds = Some(any_esds_asc(2, 8, 1));
+    crate::c05_decode_ref!(Mp4aBox, v, ref_mp4a, 83);
+}
+
 #[kani::proof]
 #[kani::unwind(8)]
 fn q_h05dec__avcc_s1x4_p1x2() {
